@@ -3,6 +3,7 @@ import json
 import random
 
 import p_sync
+from vlib import clip as vclip
 from vlib import unreproduced as vlib_unreproduced, Broken, Verdict, read_ndjson, write_ndjson, require_coverage
 
 TRACE_CFG = "SPECIFICATION Spec\nCHECK_DEADLOCK TRUE\n"
@@ -69,7 +70,7 @@ def run(w, scen, label):
         if "mode" not in o:
             scn = o.get("scn") or {}
             o = {"id": scn.get("id", -1), "mode": scn.get("mode", "decode"), "opts": scn.get("opts", OPTSETS[0]), "bytes": scn.get("bytes", []), "decoded": [], "ioerr": 0, "mismatch": 1,
-                 "err": ("CRASHED: " if o.get("crashed") else "HUNG: " if o.get("hung") else "HARNESS: " + str(o.get("harness_error"))) + (o.get("stderr") or "")[-1200:], "n": 0, "first": ""}
+                 "err": ("CRASHED: " if o.get("crashed") else "HUNG: " if o.get("hung") else "HARNESS: " + str(o.get("harness_error"))) + vclip(o.get("stderr"), 1200), "n": 0, "first": ""}
         obs.append(o)
     if len(obs) != len(scen):
         raise Broken("harness returned %d observations for %d scenarios" % (len(obs), len(scen)))
